@@ -325,6 +325,29 @@ func arraysRun[T num, A arr[T, A]](k kit[T, A], rc *RunCtx, o *Outcome) {
 		case kind <= 5: // Get / Set one element
 			idx := drawIdx(rv.shape)
 			off := rv.offs[flatIndex(idx, rv.shape)]
+			if big := singleLongDim(rv.shape); big >= 0 && len(rv.shape) > 1 && w.Bool(50) {
+				// Get1 on an n-D view that is a series (exactly one dimension longer than 1):
+				// the model wrappers read parameter and input series this way
+				i := w.Choose(rv.shape[big])
+				sidx := make([]int, len(rv.shape))
+				sidx[big] = i
+				var gv, cv T
+				what := fmt.Sprintf("%s.Get1(%d)", rv.how, i)
+				x.log = append(x.log, what)
+				both(what, "view", v, func(a A) {
+					a1 := any(a).(interface{ Get1(int) T })
+					if any(a) == any(v.g) {
+						gv = a1.Get1(i)
+					} else {
+						cv = a1.Get1(i)
+					}
+				})
+				if !x.aborted {
+					expect(what, "view", r.store[rv.offs[flatIndex(sidx, rv.shape)]], gv, cv)
+				}
+				o.probe("Get1_on_nD_series_view")
+				break
+			}
 			if w.Bool(50) {
 				var gv, cv T
 				what := fmt.Sprintf("%s.Get(%v)", rv.how, idx)
@@ -881,4 +904,18 @@ func opName(what string) string {
 		name = name[:i]
 	}
 	return name
+}
+
+// singleLongDim returns the index of the only dimension longer than 1, or -1.
+func singleLongDim(shape []int) int {
+	big := -1
+	for d, e := range shape {
+		if e > 1 {
+			if big >= 0 {
+				return -1
+			}
+			big = d
+		}
+	}
+	return big
 }
